@@ -811,6 +811,40 @@ def more_services(u):
     return L
 
 
+def io_services(u):
+    """C01 / C07: io_control on a configured entry {codec of 2 bytes, masks m0 = 0x01, m1 = 0x03 (overlapping m0), m2 = 0x80, mask_size 1}: symbolic control parameter,
+    symbolic values, the masks in their dict form (three names set or cleared, also a name the table does not define), as one boolean, absent"""
+    import symtrans as st
+    request, interpret = client_env(u)
+    from udsoncan import DidCodec
+
+    class Raw2(DidCodec):
+        def encode(self, v):
+            n = st.sym_len(v)
+            if n != 2:
+                raise ValueError('2 bytes expected')
+            return v
+
+        def decode(self, b):
+            return b
+
+        def __len__(self):
+            return 2
+    cfg = {'input_output': {0x0132: {'codec': Raw2(), 'mask': {'m0': 0x01, 'm1': 0x03, 'm2': 0x80}, 'mask_size': 1}}}
+    B3 = [('b0', 'B'), ('b1', 'B'), ('b2', 'B')]
+    P = [('cp', OZ), ('values', OY)]
+    return [
+        dict(name='fn_io_request_dict', params=P + B3, result='Y',
+             call=request(lambda c, cp, v, b0, b1, b2: c.io_control(0x0132, control_param=cp, values=(None if v is None else [v]), masks={'m0': b0, 'm1': b1, 'm2': b2}), cfg)),
+        dict(name='fn_io_request_undefined_name', params=P + [('b0', 'B'), ('bx', 'B')], result='Y',
+             call=request(lambda c, cp, v, b0, bx: c.io_control(0x0132, control_param=cp, values=(None if v is None else [v]), masks={'m0': b0, 'mX': bx}), cfg)),
+        dict(name='fn_io_request_bool', params=P + [('b', 'B')], result='Y',
+             call=request(lambda c, cp, v, b: c.io_control(0x0132, control_param=cp, values=(None if v is None else [v]), masks=b), cfg)),
+        dict(name='fn_io_request_nomask', params=P, result='Y',
+             call=request(lambda c, cp, v: c.io_control(0x0132, control_param=cp, values=(None if v is None else [v])), cfg)),
+    ]
+
+
 def pick(names):
     return lambda u: [sp for sp in helpers(u) if sp['name'] in names]
 
@@ -839,6 +873,7 @@ def files(u):
              lambda u: [sp for sp in more_services(u) if not any(k in sp['name'] for k in ('load', 'define'))]),
             ('Fn_More2.v', 'udsoncan/client.py (request_download, request_upload, dynamically_define_did by source DID) and their services',
              lambda u: [sp for sp in more_services(u) if any(k in sp['name'] for k in ('load', 'define'))]),
+            ('Fn_Io.v', 'udsoncan/client.py (io_control), services/InputOutputControlByIdentifier.py (make_request), tools.py, common/IOControls.py', io_services),
             ('Fn_Unlock.v', 'udsoncan/client.py (unlock_security_access, request_seed, send_key; send_request replaced by two scripted replies)', unlock),
             ('Fn_SendRequest.v', 'udsoncan/client.py (send_request, on a symbolic clock)',
              lambda u: [sp for sp in send_request(u) if not any(k in sp['name'] for k in CTX_KINDS)]),
